@@ -11,7 +11,7 @@
 (* it on the four real scanners.  Unlike MC_LocalSweep's hand-written access strings, the cover follows       *)
 (* the grammar of the options (OptBits) and reaches states that need several words, escapes and folding.      *)
 EXTENDS LocalPart, Json, TLC
-CONSTANTS OptBits, MaxDepth
+CONSTANTS OptBits, MaxDepth, EmitCli
 VARIABLES p, k          \* k >= 0: access string of length class k; k = -1: p = access . byte; k = -2: p = access . byte . w
 
 O == [rfc20 |-> (OptBits % 2) = 1, f5322 |-> ((OptBits \div 2) % 2) = 1, us |-> ((OptBits \div 4) % 2) = 1]
@@ -34,7 +34,13 @@ Next == \/ k >= 0 /\ k < MaxDepth /\ \E c \in Sym : p' = p \o c /\ k' = k + 1
 C12Applies == IsAsciiSeq(p) /\ ~Has(p, DQ) /\ ~Has(p, BS) /\ ~O.rfc20 /\ ~O.f5322
 Vec == <<1, OptBits, Len(p)>> \o p \o <<IF C12Applies THEN 1 ELSE 0>> \o
        Concat([j \in 1..4 |-> <<LocalExp(O, ModeSeq[j], p), LocalRc(O, ModeSeq[j], p)>>])
-Inv == CASE k = -2 -> (\A m \in Modes : LocalConforms(O, m, p)) /\ PrintT(ToJson(Vec))
+(* EmitCli: the same suite as lines of a file for the eav tool, which links its own, single-cursor copy of the UTF-8 decoder in front  *)
+(* of the library's.  A vector [25, n, bytes..] says: Cli.tla hands the line  p@x.com  to the library unchanged and it is no comment. *)
+CL == INSTANCE Cli
+CliLine == p \o <<AT, 120, DOT, 99, 111, 109>>
+CliSafe == ~Has(p, LF) /\ ~Has(p, 0) /\ ~CL!Commented(CliLine \o <<LF>>) /\ CL!Address(CliLine \o <<LF>>) = CliLine
+EmitLine == (EmitCli /\ CliSafe) => PrintT(ToJson(<<25, Len(CliLine)>> \o CliLine))
+Inv == CASE k = -2 -> (\A m \in Modes : LocalConforms(O, m, p)) /\ PrintT(ToJson(Vec)) /\ EmitLine
          [] k >= 0 -> PrintT(<<"ACCESS", k, p>>)
          [] OTHER -> TRUE
 =============================================================================
